@@ -143,7 +143,6 @@ def lin_maps(F):
         out.append(('expr', [[k, ['sum', A('u')]]]))
         out.append(('const', [[k, CS2]]))
     if len(keys) > 1:
-        names = iter(['z', 'w' if 'w' not in F else 'v', 'u'])
         ent = []
         for k in keys:
             ent.append([k, N('q')] if k == 'p' else [k, ['mul', A('z'), ['k', float(len(ent) + 1), 'float']]] if len(ent) else [k, N('z')])
@@ -338,6 +337,7 @@ def _run_replace(res, f, F, scheme, reduced=False):
 
 
 def _run_chain(res, f, F, scheme):
+    vs = None
     for label, entry_lists, builder in chain_terms(f, F):
         vs = variants_chain(builder)
         out = _judge(res, vs, scheme, label)
